@@ -295,3 +295,45 @@ func constantInt64(c *types.Const) (int64, bool) {
 	}
 	return constant.Int64Val(v)
 }
+
+// checkFreshFrame: in a read loop every frame is decoded into an Fcall allocated in that
+// iteration, and that very object is what is handed on (sent on a channel). An object that is
+// allocated once and reused is overwritten by the reader while its previous receiver still uses it.
+func checkFreshFrame(r *Run, fn *ssa.Function, rule string) {
+	if fn == nil {
+		return
+	}
+	n := 0
+	for _, c := range findCalls(fn, "invoke p9p.Channel.ReadFcall") {
+		if !inLoop(c) {
+			continue
+		}
+		n++
+		dst := c.Call.Args[len(c.Call.Args)-1]
+		a, isAlloc := dst.(*ssa.Alloc)
+		fresh := isAlloc && a.Heap && inLoop(a) && a.Block().Dominates(c.Block()) || (isAlloc && a.Block() == c.Block())
+		if isAlloc && !inLoop(a) {
+			fresh = false
+		}
+		r.Check(fresh, rule, fnName(fn)+": each frame is read into an Fcall allocated for that frame", c.Pos(),
+			"the read loop reuses one Fcall for every frame: the object handed to the previous receiver is cleared and overwritten by the next read (replies/requests get mixed up under concurrency; data race)")
+		// what is handed on is that object
+		sent := false
+		eachInstr(fn, func(in ssa.Instruction) {
+			switch x := in.(type) {
+			case *ssa.Send:
+				if x.X == dst {
+					sent = true
+				}
+			case *ssa.Select:
+				for _, st := range x.States {
+					if st.Send == dst {
+						sent = true
+					}
+				}
+			}
+		})
+		r.Check(sent, rule, fnName(fn)+": the frame just read is what is handed on", c.Pos(), "the object passed on is not the one the frame was read into")
+	}
+	r.Floor(rule, n, 1, "ReadFcall in the read loop of "+fnName(fn))
+}
